@@ -228,7 +228,11 @@ func TestC05(t *testing.T) {
 		// initial state
 		seed := rapid.Uint64().Draw(t, "stateSeed")
 		regs := map[expr.Key]uint64{}
-		for i, k := range synthRegsAll {
+		// every register a synthetic instruction can name gets a full-width initial
+		// value (also the registers that carry the name of a memory key): a register
+		// left to the lazy provider would be asked for at the width of its FIRST read,
+		// which depends on the instruction order and is no property of the code
+		for i, k := range append(append([]expr.Key{}, synthRegsAll...), synthMems...) {
 			switch uniformInt(t, 4, "regKind") {
 			case 0:
 				regs[k] = synthWindow + uint64(uniformInt(t, 24, "ptr"))
